@@ -137,8 +137,8 @@ class FunctionNode(ConfigDict):
         params = list(sig.parameters.values())
         idx_to_name = []
         for p in params:
-            if p.kind == inspect.Parameter.VAR_POSITIONAL:
-                break
+            if p.kind not in (inspect.Parameter.POSITIONAL_ONLY, inspect.Parameter.POSITIONAL_OR_KEYWORD):
+                break # (*args, and behind it - or behind a bare '*' - keyword-only parameters and **kwargs: not positions)
             idx_to_name.append(p.name)
 
         kw_positional_args = {}
